@@ -282,6 +282,58 @@ fn zero_padded_lengths(ctx: &Ctx) {
     }
 }
 
+
+/// Lock and unlock are functions of their arguments: SEQUENCES of calls in one thread - a failed unlock (wrong password,
+/// tampered blob) directly followed by the right unlock of the same blob, by a lock under the same salt, by the same
+/// calls for the empty password - must each give the documented result, whatever was computed just before.
+fn call_sequences(ctx: &Ctx) {
+    let mut rng = Rng::fork(ctx.seed, "C15-seq");
+    let pws: Vec<Vec<u8>> = vec![b"".to_vec(), b"a".to_vec(), b"seq-pw".to_vec(), "p\u{e4}ss".as_bytes().to_vec(), vec![b'x'; 64]];
+    for round in 0..ctx.tier.pick(3, 20) {
+        for pw in &pws {
+            let sk = rng.arr32();
+            let salt = rng.arr32();
+            let want = refspec::lock_sk(&sk, pw, &salt);
+            let mut tampered = unb64(&want).unwrap();
+            tampered[50] ^= 1;
+            let tampered = b64(&tampered);
+            let other: Vec<u8> = if pw.is_empty() { b"not-empty".to_vec() } else { Vec::new() };
+            // (what, call, expectation)
+            let steps: Vec<(&str, Box<dyn Fn() -> Result<Result<String, String>, String>>, Option<String>)> = vec![
+                ("unlock with another password", Box::new({ let (w, o) = (want.clone(), other.clone()); move || real_unlock(&w, &o).map(|r| r.map(|k| hex(&k))) }), None),
+                ("unlock with the right password", Box::new({ let (w, p) = (want.clone(), pw.clone()); move || real_unlock(&w, &p).map(|r| r.map(|k| hex(&k))) }), Some(hex(&sk))),
+                ("unlock a tampered blob", Box::new({ let (t, p) = (tampered.clone(), pw.clone()); move || real_unlock(&t, &p).map(|r| r.map(|k| hex(&k))) }), None),
+                ("lock under the same salt", Box::new({ let (p, s2, k) = (pw.clone(), salt, sk); move || real_lock(&k, &p, &s2).map(Ok) }), Some(want.clone())),
+                ("unlock with the right password again", Box::new({ let (w, p) = (want.clone(), pw.clone()); move || real_unlock(&w, &p).map(|r| r.map(|k| hex(&k))) }), Some(hex(&sk))),
+                ("unlock with the empty password", Box::new({ let w = want.clone(); move || real_unlock(&w, b"").map(|r| r.map(|k| hex(&k))) }), if pw.is_empty() { Some(hex(&sk)) } else { None }),
+                ("lock under the empty password and the same salt", Box::new({ let (s2, k) = (salt, sk); move || real_lock(&k, b"", &s2).map(Ok) }), Some(refspec::lock_sk(&sk, b"", &salt))),
+                ("unlock with the right password once more", Box::new({ let (w, p) = (want.clone(), pw.clone()); move || real_unlock(&w, &p).map(|r| r.map(|k| hex(&k))) }), Some(hex(&sk))),
+            ];
+            let mut prev = "(first call)".to_string();
+            for (what, call, expect) in steps {
+                ctx.eval();
+                let got = call();
+                let ok = match (&got, &expect) {
+                    (Ok(Ok(v)), Some(e)) => v == e,
+                    (Ok(Err(_)), None) => true,
+                    _ => false,
+                };
+                if !ok {
+                    ctx.violation("C15:result-depends-on-the-previous-call", json!({"this_call": what, "previous_call": prev, "password": hex(pw), "salt": hex(&salt), "got": format!("{:?}", got).chars().take(200).collect::<String>(), "expected": expect.clone().unwrap_or_else(|| "an error".into())}));
+                    break;
+                }
+                ctx.seen("call sequence: lock / unlock results independent of the previous call");
+                ctx.distinct(&format!("seq|{}|{}|{}", round, hex(pw), what));
+                prev = what.to_string();
+            }
+        }
+    }
+}
+
+fn real_lock(sk: &[u8; 32], pw: &[u8], salt: &[u8; 32]) -> Result<String, String> {
+    crate::kio::guarded(|| Keyring::lock_private_key(&crate::kio::sk(sk), pw, *salt).as_str().to_string())
+}
+
 pub fn run(ctx: &Ctx) {
     ctx.rule(
         "the CLI's real lock/unlock code (compiled from /repo/src/cli/src/keyring.rs) against the documented format built on OpenSSL: lock output string-equal to the \
@@ -295,6 +347,7 @@ pub fn run(ctx: &Ctx) {
     wrong_pw(ctx);
     malformed_strings(ctx);
     zero_padded_lengths(ctx);
+    call_sequences(ctx);
     crate::c15cli::cli_lanes(ctx);
     ctx.require("cli: near-miss password does not unlock", 20);
     ctx.require("cli: keyring key does not unlock for encrypt/decrypt under another password", 10);
